@@ -89,7 +89,13 @@ def run_cases(ck, res, n_cases, n_interval):
             args_b, args_o = (T, P), (Rr, T, P)
         elif kind == 'zonal':
             md = r.randint(0, 12); n = md + 1
-            basis, op = FB.ZonalSphericalHarmonics(max_degree=md), FB.ZonalSphericalHarmonicsLaplacian(max_degree=md)
+            if ci % 2:
+                # custom degree lists (any order, gaps): the operator must use each column's own degree
+                degs = r.sample(range(13), r.randint(1, 5))
+                md, n = tuple(degs), len(degs)
+                basis, op = FB.ZonalSphericalHarmonics(degrees=list(degs)), FB.ZonalSphericalHarmonicsLaplacian(degrees=list(degs))
+            else:
+                basis, op = FB.ZonalSphericalHarmonics(max_degree=md), FB.ZonalSphericalHarmonicsLaplacian(max_degree=md)
             args_b, args_o = (T, P), (Rr, T, P)
         else:
             md = r.randint(0, 12); n = 2 * md + 1
@@ -120,7 +126,7 @@ def run_cases(ck, res, n_cases, n_interval):
             # float32 coefficient tensors are used by the zonal/Fourier operators: tolerance for that
             if not enga.close(gv[i], ev[i], scale * 100, rel=1e-7):
                 ck.fail(f'{kind}-laplacian/value', f'{kind} basis Laplacian {gv[i]!r} differs from the Laplacian of the expanded field {ev[i]!r}', dict(inp, row=i), expected=ev[i], actual=gv[i])
-        tname = {'harmonics': f'harm_lap_{md}', 'zonal': f'zonal_lap_{md}', 'fourier': f'fourier_lap_{md}'}[kind]
+        tname = {'harmonics': f'harm_lap_{md}', 'zonal': f'zonal_lap_{md}', 'fourier': f'fourier_lap_{md}'}[kind] if not isinstance(md, tuple) else 'zonal-custom-degrees'
         if res is not None and 'terms' in res.get(tname, {}):
             term = res[tname]['terms'][0]
             fenv = {f'R{k}': coefs[k].jet for k in range(n)}
